@@ -1,5 +1,6 @@
 import RsslVerif.Lemmas.SlotsInline
 import RsslVerif.Lemmas.SlotsCompile
+import RsslVerif.Lemmas.SlotsMeta
 /-!
 # C06 — binding slots are allocated completely, contiguously and without overlap
 
@@ -347,6 +348,81 @@ theorem by_name_agrees_with_whole_file {t : Target} {sba : Bool} {ir : Module} {
                 subst hq
                 simp only [List.map_cons] at kname
                 rw [IsBuiltFor.unique kname.1 hbk]
+
+/-! ### The reflection metadata is the allocation -/
+open RsslVerif.Lemmas.SlotsMeta
+
+theorem inlineBytes_zero_of_no_buffer_address {p : Params} (h : p.supportBufferAddress = false) (d : Decl) :
+    inlineBytes p d = 0 := by
+  cases d with
+  | other => rfl
+  | cbuffer _ => rfl
+  | global s ss k l =>
+    cases k with
+    | none => rfl
+    | some k => simp [inlineBytes, isInline, h]
+
+theorem totalInline_zero_of_no_buffer_address {p : Params} (h : p.supportBufferAddress = false) (dflt g : Nat) :
+    ∀ ds : List Decl, totalInline p dflt g ds = 0
+  | [] => rfl
+  | d :: ds => by
+    have ih := totalInline_zero_of_no_buffer_address h dflt g ds
+    unfold totalInline at ih ⊢
+    simp only [List.map_cons, List.sum_cons, inlineBytes_zero_of_no_buffer_address h, ite_self] at ih ⊢
+    omega
+
+theorem agrees_all_index {p : Params} {dflt : Nat} (h : p.supportBufferAddress = false) :
+    ∀ {ds : List Decl} {bs : List (Option Binding)}, Agrees p dflt ds bs →
+      ∀ ob ∈ bs, ∀ b, ob = some b → ∃ i, b.loc = .index i
+  | [], [], _, ob, hob, _, _ => by simp at hob
+  | d :: ds, ob0 :: bs, ha, ob, hob, b, hb => by
+    obtain ⟨h0, hrest⟩ := ha
+    rcases List.mem_cons.1 hob with rfl | hob
+    · subst hb
+      simp only [] at h0
+      cases hl : b.loc with
+      | index i => exact ⟨i, rfl⟩
+      | inline o =>
+        rw [hl] at h0
+        have := inlineBytes_zero_of_no_buffer_address h d
+        omega
+    · exact agrees_all_index h hrest ob hob b hb
+  | [], _ :: _, ha, _, _, _, _ => by simp [Agrees] at ha
+  | _ :: _, [], ha, _, _, _, _ => by simp [Agrees] at ha
+
+theorem metal_params_no_buffer_address (t : Target) (sba : Bool) (h : isMetal t = true) :
+    (paramsFor t sba).supportBufferAddress = false := by
+  cases t <;> simp_all [isMetal, paramsFor]
+
+/-- **What is observed is what was allocated.**  For every pipeline `compile()` returns, on every target, the
+    returned metadata lists in group `g` exactly the bound declarations whose binding is in group `g`, in
+    declaration order, each with the allocator's location and its descriptor count, and the group's inline block
+    is the allocator's inline block of that set (none on Metal, where there are none).  On Metal this includes
+    that the exporter's per-group sort by index changes nothing, because the index ranges tile in declaration order. -/
+theorem metadata_is_the_allocation {a : Args} {ir : Module} {outs : List Built}
+    (hfresh : ir.assigned = false) (hsel : ir.selected = none) (h : compile a ir = .ok outs) :
+    ∀ b ∈ outs, ∀ g,
+      bindingsAt b.groups g = entriesOf g ir.names ir.decls b.slots.bindings ∧
+      inlineAt b.groups g =
+        (b.slots.inlineBufs.find? (fun x => x.set == g)).map (fun x => (x.apiLocation, x.sizeInBytes)) := by
+  intro b hb g
+  obtain ⟨d, _, hassign, hdesc⟩ := (compile_spec hfresh hsel h).mem b hb
+  have hp := paramsFor_ok a.target a.supportBufferAddress
+  have hbuf := inline_buffers_correct hp hassign
+  cases hm : isMetal a.target with
+  | false => exact describe_hlsl_spec hm hbuf.2.2 hdesc g
+  | true =>
+    have hsba := metal_params_no_buffer_address a.target a.supportBufferAddress hm
+    have hidx := agrees_all_index hsba (binding_complete hp hassign)
+    have hnil : b.slots.inlineBufs = [] := by
+      cases hl : b.slots.inlineBufs with
+      | nil => rfl
+      | cons x xs =>
+        obtain ⟨h1, _, h3⟩ := hbuf.1 x (by simp [hl])
+        have := totalInline_zero_of_no_buffer_address hsba d x.set ir.decls
+        omega
+    obtain ⟨m1, m2⟩ := describe_metal_spec hm (fun g' => ⟨_, index_ranges_tile hp hassign g'⟩) hidx hdesc g
+    exact ⟨m1, by simp [m2, hnil]⟩
 
 /-! Non-vacuity: two pipelines with different default groups over one ungrouped buffer address and one explicit
     group — the whole-file call returns both layouts, each in its own default group. -/
